@@ -76,6 +76,33 @@ func verifIPAllocInvariant(a *IPAllocator, total uint64, countExact bool) {
 	}
 }
 
+// verifArgPrefix picks the prefix argument of an operation: any unit of the pool, or (IPv4 geometries) a prefix of
+// the right length that lies 1..total units below the pool base or just above its end.
+func verifArgPrefix(a *IPAllocator, total uint64) (*net.IPNet, bool) {
+	c := ndPick("argidx", int(total)+2)
+	if uint64(c) < total || a.isIPv6 {
+		return a.getPrefixByIndex(uint64(c) % total), true
+	}
+	step := uint32(a.step.Uint64())
+	b := a.baseIP.To4()
+	base := uint32(b[0])<<24 | uint32(b[1])<<16 | uint32(b[2])<<8 | uint32(b[3])
+	var v uint32
+	if uint64(c) == total {
+		v = base - step*uint32(1+ndPick("units-below", int(total)))
+	} else {
+		v = base + step*uint32(total)
+	}
+	return &net.IPNet{IP: net.IP{byte(v >> 24), byte(v >> 16), byte(v >> 8), byte(v)}, Mask: net.CIDRMask(a.prefixLen, 32)}, false
+}
+
+func verifOutside(a *IPAllocator, p *net.IPNet, err error, k string, heldBefore *net.IPNet) {
+	vTag("prefix-outside-pool")
+	vAssert(err != nil, "an operation accepted a prefix outside the pool")
+	vAssert(!a.Contains(p) && !a.IsAllocated(p) && a.LookupByPrefix(p) == "", "a prefix outside the pool is reported as contained / allocated")
+	got := a.Lookup(k)
+	vAssert((got == nil) == (heldBefore == nil) && (got == nil || got.IP.Equal(heldBefore.IP)), "a refused out-of-pool operation changed what the subscriber holds")
+}
+
 func verifIPAllocStep(c05 bool) {
 	a, total := verifIPAllocAny()
 	base := a.BaseNetwork()
@@ -97,18 +124,26 @@ func verifIPAllocStep(c05 bool) {
 			vAssert(uint64(len(a.allocated)) >= total, "exhaustion reported while a unit is free")
 		}
 	case 1:
-		idx := uint64(ndPick("argidx", int(total)))
-		_ = a.AllocateSpecific(k, a.getPrefixByIndex(idx))
+		p, inside := verifArgPrefix(a, total)
+		err := a.AllocateSpecific(k, p)
+		if !inside {
+			verifOutside(a, p, err, k, heldBefore)
+		}
 	case 2:
 		_ = a.Release(k)
 		vAssert(a.Lookup(k) == nil, "released subscriber still holds a prefix")
 	case 3:
-		idx := uint64(ndPick("argidx", int(total)))
-		_ = a.ReleasePrefix(a.getPrefixByIndex(idx))
+		p, inside := verifArgPrefix(a, total)
+		err := a.ReleasePrefix(p)
+		if !inside {
+			verifOutside(a, p, err, k, heldBefore)
+		}
 	case 4:
-		idx := uint64(ndPick("argidx", int(total)))
-		p := a.getPrefixByIndex(idx)
-		if a.SetAllocation(k, p) == nil {
+		p, inside := verifArgPrefix(a, total)
+		err := a.SetAllocation(k, p)
+		if !inside {
+			verifOutside(a, p, err, k, heldBefore)
+		} else if err == nil {
 			got := a.Lookup(k)
 			vAssert(got != nil && got.IP.Equal(p.IP), "SetAllocation succeeded but the subscriber does not hold the announced prefix")
 		}
